@@ -1,6 +1,9 @@
 //! C11 — coset enumeration: drives the real `coset_table` / `coset_representative`.
 use rust_dsymbols::fpgroups::cosets::{coset_representative, coset_table, CosetTable};
 use rust_dsymbols::fpgroups::free_words::FreeWord;
+use rust_dsymbols::delaney2d::is_spherical;
+use rust_dsymbols::fundamental_group::fundamental_group;
+use verif_harness::dsgen::{all_vs, dsets};
 use verif_harness::gen::words_exact;
 use verif_harness::groups::{corpus, Group};
 use verif_harness::{enc_list, enc_lists, Ctx, Rng};
@@ -86,6 +89,19 @@ fn cases(ctx: &mut Ctx, g: &Group, subs: &[Vec<isize>], kind: &str) {
             s.push_str(&format!(" {} {}", k, enc_list(&letters)));
         }
         s
+    });
+}
+
+/// a presentation without an independent order oracle: the same two ops with the validity
+/// clauses only (`ct_nc`: complete, inverse-consistent, relators close, H fixes row 0,
+/// transitive, accessor probes; plus the exact model table) — no corpus / exact-index clauses
+fn cases_nc(ctx: &mut Ctx, g: &Group, subs: &[Vec<isize>], kind: &str) {
+    let nt = if subs.iter().any(|w| !reduces_to_empty(w)) { "nt " } else { "" };
+    let tags = format!("{nt}order-unknown gens={} subs={kind}", g.nr_gens.min(9));
+    ctx.case("ct_nc", &tags, || g.encode(subs), || {
+        let t = make_table(g, &g.rels, subs);
+        let v = view(&t);
+        format!("{} {} {}", enc_lists(&v), enc_lists(&bfs_view(&v)), probes(&t))
     });
 }
 
@@ -268,6 +284,50 @@ fn main() {
                 let k = 1 + rng.below(5);
                 let subs: Vec<Vec<isize>> = (0..k).map(|_| random_word(&mut rng, g.nr_gens, 8)).collect();
                 cases(&mut ctx, g, &subs, "many-generators");
+            }
+        }
+    }
+
+    // (7) fundamental groups (as the library computes them) of all spherical 2D symbols with at
+    //     most 3 (quick) / 4 (thorough) chambers and branching numbers v <= 6: no stored
+    //     permutation representation, so validity clauses and the model table only
+    {
+        let mut rng = ctx.rng(1191);
+        let nmax = if th { 4 } else { 3 };
+        let mut idx = 0;
+        for n in 1..=nmax {
+            for t in dsets(2, n, true, true, false) {
+                for tv in all_vs(&t, &[1, 2, 3, 4, 5, 6]) {
+                    let ds = tv.to_partial_dsym();
+                    if !is_spherical(&ds) {
+                        continue;
+                    }
+                    let fg = fundamental_group(&ds);
+                    let g = Group {
+                        name: format!("pi1-sph2d-{idx}-n{n}"),
+                        quick: true,
+                        order: 0,
+                        nr_gens: fg.nr_generators(),
+                        degree: 0,
+                        rels: fg.relators.iter().map(|w| w.iter().cloned().collect()).collect(),
+                        perms: vec![],
+                    };
+                    idx += 1;
+                    cases_nc(&mut ctx, &g, &[], "none");
+                    let ng = g.nr_gens as isize;
+                    for x in 1..=ng {
+                        cases_nc(&mut ctx, &g, &[vec![x]], "generator");
+                    }
+                    let all: Vec<Vec<isize>> = (1..=ng).map(|x| vec![x]).collect();
+                    cases_nc(&mut ctx, &g, &all, "all-generators");
+                    if g.nr_gens > 0 {
+                        for _ in 0..(if th { 20 } else { 5 }) {
+                            let k = 1 + rng.below(3);
+                            let subs: Vec<Vec<isize>> = (0..k).map(|_| random_word(&mut rng, g.nr_gens, 6)).collect();
+                            cases_nc(&mut ctx, &g, &subs, "random");
+                        }
+                    }
+                }
             }
         }
     }
